@@ -34,6 +34,7 @@ type World struct {
 	defs       map[string]*Def
 	defOrder   []*Def
 	axioms     []*Term
+	boxTypes   map[string]types.Type // boxed (non-pointer-shaped) types seen in type assertions
 	seq        int
 
 	typeIDs  map[string]int
@@ -474,6 +475,10 @@ func (w *World) Unbox(t types.Type, p *Term) *Term {
 	k := typeKey(t)
 	w.declFun("box_"+k, "("+string(s)+") Int")
 	w.declFun("unbox_"+k, "(Int) "+string(s))
+	if w.boxTypes == nil {
+		w.boxTypes = map[string]types.Type{}
+	}
+	w.boxTypes[k] = t
 	if p.Op == "box_"+k && len(p.Args) == 1 {
 		return p.Args[0]
 	}
